@@ -71,6 +71,9 @@ def run(ck: Check) -> int:
                bls.BLS12_381_FrType.to_micheline_value):
         ck.function(fn)
 
+    from props.C11_P import run_P
+    run_P(ck)
+
     from bounded.C11_validate import validate
     nval, problems = validate()
     if problems:
@@ -104,7 +107,10 @@ def run(ck: Check) -> int:
                          replay='props.C11:replay', wclass=f['wclass'])
     ck.extra['failing_classes'] = {f'{c} | {w}': n for (c, w), n in sorted(seen_w.items())}
     ck.exhaustive = False
-    return ck.finish('exploration',
-                     'R (bounded): parse / render[mode] / round-trip[mode] contracts evaluated on the real value classes for every '
+    return ck.finish('other',
+                     'P/S (props/C11_P.py): structural induction over the type on the real ASTs — base cases with all values symbolic (int, nat, mutez, '
+                     'timestamp over the whole integer range in three modes, bool, unit, string, bytes, bls12_381_fr, big_map id), induction step for '
+                     'pair combs n <= 6, option, or, list/set/map/big_map literals k <= 3, ticket over opaque components under the round-trip '
+                     'hypothesis; R (bounded): parse / render[mode] / round-trip[mode] contracts evaluated on the real value classes for every '
                      'enumerated (type, value, mode); equality judged by structural observation against an independent value model; '
                      'renderings additionally read by an independent Micheline reader')
